@@ -85,6 +85,9 @@ class GenChart:
         toks += [self.init.get(i) or 0 for i in range(1, self.n + 1)]
         toks += [int(self.exith[i]) for i in range(1, self.n + 1)]
         toks += [self.depth()]
+        if family == "hsmf":
+            fall = sorted(getattr(self, "fallthrough", ()))
+            toks += [len(fall)] + fall
         rl = []
         for i in sorted(self.react):
             for s, r in sorted(self.react[i].items()):
@@ -147,6 +150,9 @@ class GenChart:
                     elif r[0] == "H":
                         status = return_status.HANDLED
                     elif r[0] == "U":
+                        if len(r) > 1 and r[1]:
+                            # a guard evaluated after the transition was set up: `status = chart.trans(X); if not ok: status = UNHANDLED`
+                            chart.trans(fns[r[1]])
                         status = return_status.UNHANDLED
                     else:
                         return None
@@ -202,7 +208,8 @@ def gen_chart(rng, nmax=14, nsig=3, malformed=False, flags=True):
             elif r < 0.45:
                 c.react[i][s] = ("H",)
             elif r < 0.57:
-                c.react[i][s] = ("U",)
+                # declines (closed guard); in a third of the cases after having set up a transition, i.e. with temp.fun moved
+                c.react[i][s] = ("U", rng.randrange(1, n + 1)) if rng.random() < 0.33 else ("U",)
         if flags:
             c.exith[i] = rng.random() < 0.7
             c.entryh[i] = rng.random() < 0.7
@@ -276,9 +283,9 @@ def state_id(fn, fns_inv):
 def run_real(chart, ops, host="plain", spied=False, builder=None):
     """run ops on the real code; returns list of canonical strings (same format as the Lean driver)"""
     base = {"plain": mhsm.HsmEventProcessor, "instr": mhsm.InstrumentedHsmEventProcessor,
-            "queued": mhsm.HsmWithQueues}[host]
+            "queued": mhsm.HsmWithQueues, "queued-off": mhsm.HsmWithQueues}[host]
     cls = probed_class(base)
-    hsm = cls()
+    hsm = cls(instrumented=False) if host == "queued-off" else cls()
     log = []
     fns = (builder or chart.build)(log, spied=spied, counter=hsm._vp_count)
     inv = {getattr(getattr(f, "__wrapped__", f), "__name__"): i for i, f in fns.items()}
